@@ -278,6 +278,9 @@ func genC01(rng *Rng, thorough bool, emit func(*Scenario)) {
 		// wrong address: neighbours, byte-swapped, random
 		for _, a := range []uint16{be.addr + 1, be.addr - 1, be.addr ^ 0x0100, be.addr<<8 | be.addr>>8, uint16(rng.U64())} {
 			emit(getScenario("c01-foreign", kind, be.addr, [][][]byte{one(simGet(a, 0, be.value))}))
+			for _, fl := range []byte{1, 2, 4, 3, 0xFF} {
+				emit(getScenario("c01-foreign-flag", kind, be.addr, [][][]byte{one(simGet(a, fl, be.value)), one(good)}))
+			}
 		}
 		// all 256 flags, exhaustive
 		for f := 0; f < 256; f++ {
